@@ -500,22 +500,31 @@ func parentMain() int {
 		if step < 1 {
 			step = 1
 		}
-		var first, second []*Result
-		for i := 0; i < total && detChecked < 8; i += step {
-			w1 := spawn(propID, tier, base, i, 1, nil, perRun)
-			w2 := spawn(propID, tier, base, i, 1, []string{"GOMAXPROCS=1"}, perRun)
-			if len(w1.results) == 1 && len(w2.results) == 1 {
-				first, second = append(first, w1.results[0]), append(second, w2.results[0])
-				detChecked++
-				if w1.results[0].Digest != w2.results[0].Digest || w1.results[0].Outcome != w2.results[0].Outcome || w1.results[0].Steps != w2.results[0].Steps {
-					detBad++
-					fmt.Printf("NONDETERMINISM index=%d digest %s vs %s steps %d vs %d outcome %s vs %s\n", i,
-						w1.results[0].Digest, w2.results[0].Digest, w1.results[0].Steps, w2.results[0].Steps, w1.results[0].Outcome, w2.results[0].Outcome)
-				}
-			}
+		var idxs []int
+		for i := 0; i < total && len(idxs) < 8; i += step {
+			idxs = append(idxs, i)
 		}
-		_ = first
-		_ = second
+		var dmu sync.Mutex
+		var dwg sync.WaitGroup
+		for _, i := range idxs {
+			dwg.Add(1)
+			go func(i int) {
+				defer dwg.Done()
+				w1 := spawn(propID, tier, base, i, 1, nil, perRun)
+				w2 := spawn(propID, tier, base, i, 1, []string{"GOMAXPROCS=1"}, perRun)
+				if len(w1.results) == 1 && len(w2.results) == 1 {
+					dmu.Lock()
+					defer dmu.Unlock()
+					detChecked++
+					if w1.results[0].Digest != w2.results[0].Digest || w1.results[0].Outcome != w2.results[0].Outcome || w1.results[0].Steps != w2.results[0].Steps {
+						detBad++
+						fmt.Printf("NONDETERMINISM index=%d digest %s vs %s steps %d vs %d outcome %s vs %s\n", i,
+							w1.results[0].Digest, w2.results[0].Digest, w1.results[0].Steps, w2.results[0].Steps, w1.results[0].Outcome, w2.results[0].Outcome)
+					}
+				}
+			}(i)
+		}
+		dwg.Wait()
 	}
 
 	// triage violations against the known-findings file
